@@ -31,7 +31,9 @@ ASSUMPTIONS = [
     'measures the weights as <e_i,e_i> and checks that the Gram matrix of the unit vectors is diagonal '
     '(Coq: such list spaces and their products satisfy SpaceLaws)',
     'the executed (Q) instance uses a rational square root of relative accuracy 1e-12 for norms; the proved (R) '
-    'instance uses sqrt',
+    'instance uses sqrt (norms occur only in grad_lipschitz of QuadraticPerturb/Bregman and in the L2Norm leaf); '
+    'for value/gradient/derivative/is_linear of all trees Coq proves (model_transfer) that the Q run is the '
+    'rational restriction of the R model',
     'leaves and operators enter the all-trees theorems through explicit soundness premises; the premises are '
     'proved for L2NormSquared, L2Norm (x != 0), Constant/Zero, linear and quadratic forms (scaling, multiply), '
     'L1Norm (no zero entry), Huber, the four Kullback-Leibler functionals, MoreauEnvelope (given a minimising, '
